@@ -285,7 +285,7 @@ def file_readers(ctx, rng, xr, ws, d):
         ds.spec.to_swan(p1)
         ds.spec.to_swan(p2)
         files = [p1, p2]
-        pure(rec, "file_reader:read_swans", "list", lambda: ws.read_swans(files, int_freq=False), {"files": files})
+        pure(rec, "file_reader:read_swans", "list", lambda: __import__('wavespectra.input.swan', fromlist=['read_swans']).read_swans(files, int_freq=False), {"files": files})
     else:
         path = os.path.join(d, "f.json")
         ds.spec.to_json(path)
